@@ -42,6 +42,7 @@ def step (line : String) : String :=
   | "aflag" :: rest => runAflag (parseKV rest)
   | "kern3" :: rest => runKern3 (parseKV rest)
   | "vw" :: rest => runVw (parseKV rest)
+  | "sw" :: rest => runSw (parseKV rest)
   | "inv" :: rest => runInv (parseKV rest)
   | "permute" :: rest => runPermute (parseKV rest)
   | "pmeta" :: rest => runPmeta (parseKV rest)
